@@ -354,6 +354,10 @@ impl Prop for C06 {
         )
     }
     fn replay(&self, unit: &str, case: &Value) -> Outcome {
+        if unit == "fuzz" {
+            let d: Vec<u8> = serde_json::from_value(case.clone()).unwrap_or_default();
+            return run_fuzz(&d);
+        }
         if unit == "mutated" {
             return match serde_json::from_value::<Case>(case.clone()) {
                 Ok(c) => run_mutated(&c),
@@ -388,4 +392,27 @@ impl Prop for C06 {
     fn shard_cases(&self) -> u32 {
         500
     }
+}
+
+/// libFuzzer entry (thorough tier): byte 0 = authorized bit + channel, byte 1 = which captured genuine message to start
+/// from, byte 2 = how much of it to keep, rest = bytes appended. State is rebuilt for every input.
+pub fn run_fuzz(data: &[u8]) -> Outcome {
+    if data.len() < 3 {
+        return Outcome::ok();
+    }
+    let authorized = data[0] & 1 == 1;
+    let ch = ((data[0] >> 1) as usize) % NCH;
+    guarded("C06", || {
+        let (mut sim, captured) = session(authorized, data[0] >> 5);
+        let mut msg: Vec<u8> = Vec::new();
+        if !captured[ch].is_empty() && data[1] != 0 {
+            let base = &captured[ch][data[1] as usize % captured[ch].len()];
+            let keep = (data[2] as usize).min(base.len());
+            msg.extend_from_slice(&base[..keep]);
+        }
+        msg.extend_from_slice(&data[3..]);
+        let mut out = Outcome::ok();
+        out.fail = inject(&mut sim, &[(ch, msg)]).or_else(|| serve_check(&mut sim, 1));
+        out
+    })
 }
